@@ -22,6 +22,9 @@ func genC20(verifSeed int64, tier string, idx int) *core.Scenario {
 	seed := core.SplitMix(uint64(verifSeed), uint64(idx)*2654435761+20)
 	r := rand.New(rand.NewSource(int64(seed)))
 	sp := &Spec{TornLimit: 512}
+	if tier == "thorough" {
+		sp.TornLimit = 1 << 20 // every byte prefix of every write
+	}
 	sp.UID = []int{0, 1000}[r.Intn(2)]
 	sp.DirState = []string{"exists", "exists", "exists", "missing"}[r.Intn(4)]
 	if sp.DirState == "exists" {
